@@ -21,13 +21,13 @@ rm $W/$dest
 # apply
 if ! git -C $W apply $out/change$k.diff 2> $V/apply.log; then echo "$res APPLY-FAILED $(head -2 $V/apply.log)"; git -C /repo worktree remove --force $W; rm -rf $V; exit 3; fi
 (cd $W && go build ./... > $V/b.log 2>&1); b=$?
-/verif/tools/repotest.sh $W > $V/s.log 2>&1; s=$?
+if [ -n "$SEV_NOSUITE" ]; then s=skipped; else /verif/tools/repotest.sh $W > $V/s.log 2>&1; s=$?; fi
 cp $demo $W/$dest
 (cd $W && go test -count=1 -run "^(${tname})\$" $pkg > $V/c.log 2>&1); c=$?
 rm $W/$dest
 res="$res build=$b suite=$s demo_without=$d demo_with=$c"
 caught=""
-for p in $(seq -f 'C%02g' 1 20); do
+for p in $([ -n "$SEV_NOCHECK" ] || seq -f 'C%02g' 1 20); do
   if /verif/bin/hpfscheck -repo $W -verif $V -property $p > $V/chk_$p.log 2>&1; then :; else caught="$caught $p"; fi
 done
 echo "$res caught_by=[${caught# }]"
